@@ -541,7 +541,40 @@ def collect(repo):
     post = eb[cut + len('this.run()'):]
     if re.search(r'state_stack\s*\.\s*push|push_trace_item|delay_trace_item', post):
         raise Shape('eval pushes states after run()')
-    return handlers, inits, [(n, helpers[n]) for n in helper_order], {'fns': len(fns), 'arms': len(arms), 'ptrs': len(ptrs)}
+    return handlers, inits, [(n, helpers[n]) for n in helper_order], {'fns': len(fns), 'arms': len(arms), 'ptrs': len(ptrs)}, core_thunk_forces(codes, fns)
+
+
+def core_thunk_forces(codes, fns):
+    """every `state_stack.push(State::DoThunk(x))` of the core-language files (mod.rs, expr.rs) with whether a
+    `push_trace_item(` precedes it inside the same innermost block — i.e. whether the force of the thunk is
+    framed.  The initial pushes of fn eval (the top-level thunk, depth 0) are the only unframed ones allowed;
+    builtins (call.rs, stdlib.rs, ...) force their arguments under the Call frame pushed by the caller and are
+    not listed."""
+    out = []
+    for fname in ('mod.rs', 'expr.rs'):
+        code = codes[fname]
+        for m in re.finditer(r'state_stack\s*\.\s*push\s*\(\s*State\s*::\s*DoThunk\s*\(', code):
+            # innermost enclosing block
+            depth, j = 0, m.start()
+            while j >= 0:
+                if code[j] == '}':
+                    depth += 1
+                elif code[j] == '{':
+                    if depth == 0:
+                        break
+                    depth -= 1
+                j -= 1
+            if j < 0:
+                raise Shape('DoThunk push outside any block in %s' % fname)
+            framed = 'push_trace_item' in code[j:m.start()]
+            owner = [f for f in fns if f.file == fname and f.open < m.start() < f.close]
+            owner = min(owner, key=lambda f: f.close - f.open).name if owner else '?'
+            c = code.find(')', m.end())
+            arg = norm(code[m.end():c])
+            out.append(('%s:%s' % (fname, owner), arg, framed or owner == 'eval'))
+    if len(out) < 15:
+        raise Shape('only %d DoThunk pushes found in mod.rs/expr.rs' % len(out))
+    return out
 
 
 # ---------------------------------------------------------------- output
@@ -576,7 +609,7 @@ def count(t, s):
     return sum(count(x, s) for x in t[1:] if isinstance(x, tuple))
 
 
-def render(handlers, inits, helpers):
+def render(handlers, inits, helpers, forces):
     L = ['(* GENERATED by tools/translate_tracepush.py from %s/*.rs — do not edit *)' % EVAL_DIR,
          'From RJ Require Import Base.Outcome Model.TraceLen.',
          'Local Open Scope string_scope.']
@@ -589,12 +622,17 @@ def render(handlers, inits, helpers):
     L.append('Definition init_trees : list (string * tree) := [')
     L.append(';\n'.join('  ("%s", %s)' % (n, coq_tree(t)) for n, t in inits))
     L.append('].')
+    L.append('Definition core_thunk_forces : list (string * string * bool) := [')
+    L.append(';\n'.join('  ("%s", "%s", %s)' % (a, b, 'true' if c else 'false') for a, b, c in forces))
+    L.append('].')
     return '\n'.join(L) + '\n'
 
 
 def main(repo, out):
-    handlers, inits, helpers, stats = collect(repo)
-    text = render(handlers, inits, helpers)
+    handlers, inits, helpers, stats, forces = collect(repo)
+    text = render(handlers, inits, helpers, forces)
+    stats['core_thunk_forces'] = len(forces)
+    stats['unframed'] = [f for f in forces if not f[2]]
     old = open(out).read() if os.path.exists(out) else None
     if old != text:
         open(out, 'w').write(text)
